@@ -20,6 +20,8 @@ pub struct Ctx {
     pub scale: f64,
     pub verbose: bool,
     pub no_evidence: bool,
+    /// keep going after many violations (calibration / statistics)
+    pub no_stop: bool,
 }
 impl Ctx {
     pub fn quick(&self) -> bool {
@@ -147,6 +149,8 @@ pub struct CaseResult {
 
 /// Runs all cases on `ctx.threads` worker threads. Every worker owns its worlds and its virtual clock.
 pub fn par_run<C: Sync>(ctx: &Ctx, cases: &[C], id: &(dyn Fn(&C) -> String + Sync), run: &(dyn Fn(&C) -> Outcome + Sync)) -> Vec<CaseResult> {
+    let known = load_known_findings();
+    let known = &known;
     let next = AtomicUsize::new(0);
     let results: Mutex<Vec<(usize, CaseResult)>> = Mutex::new(Vec::with_capacity(cases.len()));
     let stop = AtomicUsize::new(0);
@@ -169,8 +173,12 @@ pub fn par_run<C: Sync>(ctx: &Ctx, cases: &[C], id: &(dyn Fn(&C) -> String + Syn
                         o
                     }
                 };
-                if matches!(out.verdict, Verdict::Violated(_)) {
-                    stop.fetch_add(1, Ordering::Relaxed);
+                if let Verdict::Violated(vs) = &out.verdict {
+                    // violations matching an open known finding do not count towards the early stop
+                    let case_text = out.sample.to_string();
+                    if !ctx.no_stop && vs.iter().any(|v| !known.iter().any(|k| k.matches(&ctx.prop, v, &case_text))) {
+                        stop.fetch_add(1, Ordering::Relaxed);
+                    }
                 }
                 results.lock().unwrap().push((i, CaseResult { id: cid, out }));
             });
@@ -223,6 +231,10 @@ pub fn conclude(ctx: &Ctx, meta: Meta, results: Vec<CaseResult>, started: Instan
                     if let Some(k) = known.iter().find(|k| k.matches(&ctx.prop, v, &case_text)) {
                         let e = known_hits.entry(k.id.clone()).or_insert((k.what_fails.clone(), 0, r.id.clone()));
                         e.1 += 1;
+                        // a case failing with a listed finding was explored all the same
+                        if r.out.nontrivial && sigs.insert(r.out.sig) && samples.len() < 3 {
+                            samples.push(json!({"case": r.id, "desc": r.out.sample, "note": format!("fails with known finding {}", k.id)}));
+                        }
                     } else {
                         new_viol.push((r.id.clone(), v.clone(), r.out.sample.clone(), r.out.witness.clone()));
                     }
@@ -299,6 +311,19 @@ pub fn conclude(ctx: &Ctx, meta: Meta, results: Vec<CaseResult>, started: Instan
         println!("KNOWN-FINDING: property={} {} [{}; {} occurrence(s), first in case {}]", ctx.prop, what, id, n, first);
     }
     if !new_viol.is_empty() {
+        if ctx.verbose {
+            let mut hist: BTreeMap<String, u64> = BTreeMap::new();
+            for (_, v, _, _) in &new_viol {
+                let norm: String = v.detail.chars().map(|c| if c.is_ascii_digit() { '#' } else { c }).collect::<String>().replace("##", "#").replace("##", "#");
+                let key: String = format!("[{}] {} -- {}", v.prop, v.clause, norm.chars().take(110).collect::<String>());
+                *hist.entry(key).or_default() += 1;
+            }
+            let mut hv: Vec<_> = hist.into_iter().collect();
+            hv.sort_by_key(|x| std::cmp::Reverse(x.1));
+            for (k, n) in hv.iter().take(25) {
+                println!("    x{n}: {k}");
+            }
+        }
         for (i, (cid, v, _, _)) in new_viol.iter().enumerate() {
             if i < 5 {
                 println!("VIOLATION property={} replay={}", ctx.prop, replay_paths.get(i).cloned().unwrap_or_default());
